@@ -2,6 +2,7 @@ package queryer
 
 import (
 	"context"
+	"errors"
 	"net/http"
 
 	"github.com/buildbuildio/pebbles/common"
@@ -155,6 +156,10 @@ func (q *MultiOpQueryer) queryBatch(inputs []*requests.Request) ([]map[string]in
 	for i, resp := range resps {
 		if len(resp.Errors) != 0 {
 			return nil, resp.Errors
+		}
+		// an answer without errors has to carry data
+		if resp.Data == nil {
+			return nil, errors.New("response contains neither data nor errors")
 		}
 		results[toFetchIndexes[i]] = resp.Data
 	}
